@@ -299,6 +299,10 @@ def tasks_for(tier):
         # deeper tree with H: exact algebraic arithmetic at rational times (symbolic noise) after a prior query
         ('law', dict(levy='foster', size=(1,), cache_size=0, t0=F(-1, 2), t1=F(3, 2), times=[F(-1, 4), F(1, 3), F(1, 1)],
                      prior_times=[[F(0), F(1, 2)]]), 1, 2, mp, to),
+        # dyadic-tree mode at a coarse tolerance: the halfway points are ROUNDED to the tolerance grid ([0, 0.5] -> 0.2 | 0.3),
+        # so the two children of a node have different lengths and the bridge must use the stored split point (seeded change C04d)
+        ('law', dict(levy='none', size=(1,), tol=0.1, halfway=True, t1=Fraction(1, 2)), 0, 2, mp, to),
+        ('law', dict(levy='space-time', size=(1,), tol=0.1, halfway=True, t1=Fraction(1, 2), cache_size=1), 0, 2, mp, to),
         ('seedkey', {}, None, None, mp, to),
         ('levy', dict(levy='davie', size=(1, 2)), False, None, mp, to),
         ('levy', dict(levy='foster', size=(1, 2)), False, None, mp, to),
@@ -312,7 +316,7 @@ def tasks_for(tier):
             ('law', dict(levy='none', size=(1,), cache_size=0), 2, 2, mp, to),
             ('law', dict(levy='none', size=(1,), cache_size=45), 1, 3, mp, to),
             ('law', dict(levy='space-time', size=(2,), sym_ends=True, pinned=True, supply_W=True), 0, 2, mp, to),
-            ('law', dict(levy='none', size=(1,), tol=0.1, halfway=True, t1=Fraction(1, 2)), 0, 2, mp, to),
+            ('law', dict(levy='space-time', size=(2,), tol=0.1, halfway=True, t0=Fraction(-3, 10), t1=Fraction(2, 5)), 0, 2, mp, to),
         ]
     return T
 
